@@ -49,7 +49,7 @@ CHECKS.update({
  "C12": ("arxv-conc", "producer threads, a late subscriber thread and a leaving thread on Subject / BehaviorSubject / ReplaySubject" + CONC + "; exactly-once, gap-free per-producer runs, replay completeness in push order, behavior: value then all later values. Two open known findings (late Behavior/Replay subscriber racing a push) are reported and excluded by construction.",
          "push order = order of the producers' call/return stamps",
          PBT + " with stamped-history invariants" + CONC),
- "C13": ("arxv-seq", "generated call histories over subscribe/unsubscribe/connect/disconnect/source events on publish / ref_count / replay over hot, cold-synchronous and per-subscription sources; per-subscriber traces, source subscription counts and final liveness must equal the reference state machine.",
+ "C13": ("arxv-seq", "generated call histories over subscribe/unsubscribe/connect/disconnect/source events on publish / ref_count / replay over hot, cold-synchronous and per-subscription sources, subscribers optionally ending by themselves through take(n) - all of them or the first one only; per-subscriber traces, source subscription counts and final liveness must equal the reference state machine.",
          "trusted: reference state machine (model.rs MConn); a second connection of replay() and ref_count over a terminated hot source are not generated (unspecified)",
          PBT + " (stateful: generated call histories) with a reference state machine"),
  "C15": ("arxv-conc", "generated pipelines over interval / timer / observe_on / subscribe_on / delay / debounce / timeout ended by terminal, unsubscribe or early completion at generated virtual instants" + CONC + "; at quiescence every library-spawned thread must have finished within the pipeline's timer periods after the last subscription ended.",
